@@ -164,6 +164,7 @@ class GetBlocks(BaseException):
 
 
 class World:
+    active = False
     pass
 
 
@@ -477,8 +478,7 @@ def fsleep(secs):
 
 class FOs(types.ModuleType):
     def __getattr__(self, n):
-        import os
-        return getattr(os, n)
+        return getattr(real_os, n)
 
     def getpid(self):
         return MANAGER_PID
@@ -627,6 +627,22 @@ def setup(opts):
         for k in ("current_process", "parent_process", "active_children"):
             if hasattr(m, k):
                 setattr(m, k, MP_FAKES[k])
+    # ... and so do the other names: Process / Event / Queue, os.kill / os.getpid, signal.signal, time.sleep reached through an
+    # import statement that runs inside a function (or in a module of the package that is first imported during a case) lead to
+    # the stand-ins while a case runs, to the real objects otherwise (a real Process must never be started, a real pid never be
+    # signalled from here)
+    fos, fsig = FOs("os"), FSignal("signal")
+    for m, k, fake in [(real_mp, "Process", FProc), (real_mp, "Event", FEvent), (real_mp, "Queue", FQueue),
+                       (real_os, "kill", fos.kill), (real_os, "getpid", fos.getpid), (real_signal, "signal", fsig.signal),
+                       (real_time, "sleep", fsleep)]:
+        setattr(m, k, _at_source(getattr(m, k), fake))
+
+
+def _at_source(real, fake):
+    def during_a_case(*a, **kw):
+        return (fake if W.active else real)(*a, **kw)
+    during_a_case.__name__ = getattr(real, "__name__", "during_a_case")
+    return during_a_case
 
 
 CLI_OPTS = dict(shutdown_timeout="--shutdown-timeout", max_async_tasks="--max-async-tasks", max_prefetch="--max-prefetch",
@@ -688,6 +704,7 @@ def run_case(c, opts):
         real_os.remove(gi)
     W.observer = RecObserver() if cfg.get("observer") == "rec" else None
     args = build_args(c, cfg)
+    W.active = True         # (the at-source stand-ins of setup(): from the construction of the manager to the end of start())
     if W.observer is not None:
         W.mgr = pm.ProcessManager(args, worker_function=lambda args: None, observer=W.observer)
     elif cfg.get("observer") == "none":
@@ -718,6 +735,8 @@ def run_case(c, opts):
         res = ["crash", e.args[0]]
     except BaseException as e:  # anything else escaping start() (KeyboardInterrupt and SystemExit included)
         res = ["exc", repr(e)]
+    finally:
+        W.active = False
     q = W.mgr.action_queue
     if not isinstance(q, FQueue):
         return dict(_crash="action_queue is not the fake queue: %r" % (q,))
